@@ -156,3 +156,18 @@ async fn f_c08_a_http_tunnel_passes_end_of_data_both_ways() -> anyhow::Result<()
     assert!(!session.has_open_streams().await, "both directions ended but the client session still has a table entry for the stream");
     Ok(())
 }
+
+/// F-C08-b (repaired): a stream the server REFUSED (nothing listens on the port) was never finished by either side: both sessions
+/// kept its table entries for ever (so the pool's reaper never saw the client session as idle again)
+#[tokio::test]
+async fn f_c08_b_a_refused_stream_leaves_no_state_behind() -> anyhow::Result<()> {
+    let (_socks_addr, _up_port, client, _seen) = socks_stack().await?;
+    let dead_port = available_port();
+    let r = timeout(Duration::from_secs(10), client.create_proxy_stream(("127.0.0.1".to_string(), dead_port))).await?;
+    assert!(r.is_err(), "a connection to a closed port was reported as established");
+    sleep(Duration::from_millis(400)).await;
+    let session = client.create_stream().await?;            // the session went back to the pool (F-C13-a)
+    assert!(!session.is_closed());
+    assert!(!session.has_open_streams().await, "the refused stream is over on both sides but the client session still has a table entry for it");
+    Ok(())
+}
